@@ -457,7 +457,10 @@ def _event(rng, evnames, itf, externs, enums, subints, force_dir=None, force_nam
         fname = fn.ident('formal', rng.choice(['lower', 'any']))
         if rng.chance(35):
             # everyday names that recur across the events of an interface (`in void Read(out T value); out void Changed(T value);`)
-            common = [n for n in ('value', 'id', 'data', 'count', 'msg') if n not in {f['name'] for f in formals}]
+            # ... and names of parameters of the generated constructor, which the forwarding lambdas live in (legal: a lambda
+            # parameter may shadow them)
+            common = [n for n in ('value', 'id', 'data', 'count', 'msg', 'locator', 'prototypeLocator', 'encapsuleeInstanceName', 'multiclientLog')
+                      if n not in {f['name'] for f in formals}]
             if common:
                 fname = rng.choice(common)
         formals.append({'name': fname, 'dir': fdir,
@@ -619,6 +622,9 @@ def _j_decl(d, rng):
         return _j_subint(d)
     if k == 'interface':
         types = [_j_enum(e) for e in d['enums']] + [_j_subint(s) for s in d['subints']]
+        if rng.chance(25):
+            # a data type declared locally in the interface (Dezyne allows it; nothing in the model refers to it)
+            types.append({'<class>': 'extern', 'name': _sn(['LocalData' + str(rng.below(100))]), 'value': {'<class>': 'data', 'value': 'int'}})
         types = rng.shuffle(types)
         return {'<class>': 'interface', 'name': _sn([d['name']]), 'location': _loc(rng),
                 'types': {'<class>': 'types', 'elements': types},
